@@ -179,34 +179,34 @@ Section HashThms.
 
   (* C20_hash: equal dictionaries filled in different orders get one key *)
   Theorem hash_order_free : forall d d' : od Z,
-    Permutation d d' -> NoDup (od_keys d) ->
+    Permutation d d' ->
     make_dict_hash H (DDict d) = make_dict_hash H (DDict d').
-  Proof. intros d d' P _. cbn. rewrite (canon_perm _ _ P). reflexivity. Qed.
+  Proof. intros d d' P. cbn. rewrite (canon_perm _ _ P). reflexivity. Qed.
 
   Theorem hash_none_is_empty : make_dict_hash H DNone = make_dict_hash H (DDict []).
   Proof. reflexivity. Qed.
 
   Theorem pdfset_get_order_free : forall s (d d' : od Z),
-    Permutation d d' -> NoDup (od_keys d) ->
+    Permutation d d' ->
     pdfset_get H s (GDict d) = pdfset_get H s (GDict d').
-  Proof. intros s d d' P N. unfold pdfset_get. rewrite (hash_order_free d d' P N). reflexivity. Qed.
+  Proof. intros s d d' P. unfold pdfset_get. rewrite (hash_order_free d d' P). reflexivity. Qed.
 
   Theorem pdfset_add_order_free : forall s p (d d' : od Z),
-    Permutation d d' -> NoDup (od_keys d) ->
+    Permutation d d' ->
     pdfset_add H s p (GDict d) = pdfset_add H s p (GDict d').
-  Proof. intros s p d d' P N. unfold pdfset_add. rewrite (hash_order_free d d' P N). reflexivity. Qed.
+  Proof. intros s p d d' P. unfold pdfset_add. rewrite (hash_order_free d d' P). reflexivity. Qed.
 
   (* what was stored under a dictionary is found under every re-ordering of it,
      also by its integer key *)
   Theorem pdfset_add_get : forall s p (d d' : od Z) s',
-    Permutation d d' -> NoDup (od_keys d) ->
+    Permutation d d' ->
     pdfset_add H s p (GDict d) = (s', Ok tt) ->
     pdfset_get H s' (GDict d') = Ok p
     /\ (exists k, make_dict_hash H (DDict d') = Ok k /\ pdfset_get H s' (GInt k) = Ok p)
     /\ pdfset_contains H s' (GDict d') = Ok true.
   Proof.
-    intros s p d d' s' P N E.
-    unfold pdfset_get, pdfset_contains. rewrite <- (hash_order_free d d' P N).
+    intros s p d d' s' P E.
+    unfold pdfset_get, pdfset_contains. rewrite <- (hash_order_free d d' P).
     unfold pdfset_add in E. destruct (negb (pis_pdf p)); [inversion E|].
     cbn in *. rewrite K_mdh, ?K_pdfset_add_key, ?K_pdfset_get_key_dict, ?K_pdfset_get_key_int,
       ?K_pdfset_get_value_idx0 in *.
@@ -318,10 +318,18 @@ Proof.
   - apply IH; exact Nt.
 Qed.
 
+Lemma K_dsc_dup_check : forall (c : dsc) k, dsc_dup_check k (od_keys c) = od_mem c k.
+Proof.
+  intros c k. unfold dsc_dup_check, od_mem, od_keys.
+  induction c as [|[k0 v0] t IH]; [reflexivity|]. cbn. rewrite IH.
+  rewrite (Z.eqb_sym k k0). destruct (k0 =? k); reflexivity.
+Qed.
+
 Lemma dsc_add_ok : forall ds c c' r, dsc_ok c -> dsc_add c ds = (c', r) -> dsc_ok c'.
 Proof.
   induction ds as [|o t IH]; intros c c' r Ok E; cbn in E; [inversion E; subst; exact Ok|].
   destruct (negb (issub (ocls o) CBase)) eqn:Ty; [inversion E; subst; exact Ok|].
+  rewrite K_dsc_dup_check in E.
   destruct (od_mem c (oname o)) eqn:M; [inversion E; subst; exact Ok|].
   eapply IH; [|exact E]. destruct Ok as [N A]. split.
   - apply od_keys_set_nodup; exact N.
